@@ -28,9 +28,9 @@ let input_of (x : sexp) : input =
   | L [A "wrongshape"] -> CWrongShape
   | L [A "unknown"] -> CUnknown
   | L [A "flush"; A t] -> EFlush (n_of_atom t)
-  | L [A "ret"; A t; A "ok"] -> ERet (n_of_atom t, ROk)
-  | L [A "ret"; A t; A "data"] -> ERet (n_of_atom t, RData)
-  | L [A "ret"; A t; A "err"] -> ERet (n_of_atom t, RErr)
+  | L [A "ret"; A t; A r; A g] ->
+    let r = (match r with "ok" -> ROk | "data" -> RData | "err" -> RErr | s -> raise (Bad ("ret " ^ s))) in
+    ERet (n_of_atom t, r, (match g with "go" -> true | "end" -> false | s -> raise (Bad ("ret " ^ s))))
   | L [A "inittimeout"] -> EInitTimeout
   | L [A "tick"] -> ETick
   | L [A "clientclose"] -> EClientClose
